@@ -153,3 +153,12 @@ Theorem C16_literal_enum_same_wire_refuted : exists orc T d e cls vt vals j,
   bind (dec_step orc T d (KLitEnum vt vals) j) (enc_step T e (KLitEnum vt vals)).
 Proof. exact literal_enum_same_wire_refuted. Qed.
 Print Assumptions C16_literal_enum_same_wire_refuted.
+
+(* literal_enums does not change which operations are generated: same allowed parameter locations, same wire macros *)
+Theorem C16_literal_enum_same_operations : forall cls vt vals l req,
+  validate_location (KEnum cls vt vals) l req = validate_location (KLitEnum vt vals) l req.
+Proof. exact literal_enum_same_operations. Qed.
+Print Assumptions C16_literal_enum_same_operations.
+Theorem C16_literal_enum_same_macros : forall cls vt vals, wire_macros (KEnum cls vt vals) = wire_macros (KLitEnum vt vals).
+Proof. exact literal_enum_same_macros. Qed.
+Print Assumptions C16_literal_enum_same_macros.
